@@ -303,6 +303,21 @@ def main(argv=None):
     ap.add_argument("--max-wall", type=int)
     a = ap.parse_args(argv)
     seed = int(os.environ.get("VERIF_SEED", "0") or 0)
+    # one scratch directory per run (workers are forked and killed without atexit; replays are
+    # separate interpreters): everything temporary goes below it and it is removed at the end
+    import shutil
+    import tempfile
+
+    scratch = tempfile.mkdtemp(prefix="rsx-run-")
+    tempfile.tempdir = scratch
+    os.environ["TMPDIR"] = scratch
+    try:
+        return _main(a, seed)
+    finally:
+        shutil.rmtree(scratch, ignore_errors=True)
+
+
+def _main(a, seed):
     if a.what == "replay":
         res = run_replay(a.rest[0])
         print(json.dumps(res, indent=1))
